@@ -46,13 +46,19 @@ async def _scenario(sc):
         INTEGER = True
         WRITABLE = True
 
-        def __init__(self, port_id, value, read_ms, write_ms):
+        def __init__(self, port_id, value, read_ms, write_ms, enable_ms=0):
             super().__init__(port_id)
+            self.enable_ms = enable_ms
             self.idx = int(port_id[1:])
             self.store = value
             self.read_ms = read_ms
             self.write_ms = write_ms
             self.set_last_read_value(value)
+
+        async def handle_enable(self):
+            # a driver that needs time to bring its device up; the port counts as enabled from the start of enable()
+            if self.enable_ms:
+                await asyncio.sleep(self.enable_ms / 1000.0)
 
         async def read_value(self):
             if self.read_ms:
@@ -76,7 +82,8 @@ async def _scenario(sc):
 
     specs = sc['ports']
     ports = await core_ports.load([
-        {'driver': HPort, 'port_id': 'p%d' % i, 'value': s['value'], 'read_ms': s.get('read_ms', 0), 'write_ms': s.get('write_ms', 0)}
+        {'driver': HPort, 'port_id': 'p%d' % i, 'value': s['value'], 'read_ms': s.get('read_ms', 0), 'write_ms': s.get('write_ms', 0),
+         'enable_ms': s.get('enable_ms', 0)}
         for i, s in enumerate(specs)], trigger_add=False)
     for p in ports:
         await p.enable()
@@ -164,8 +171,9 @@ async def _scenario(sc):
                 await ports[cmd[2]].set_attr('transform_write', cmd[3])
                 trace.append(['Other', 'twrite', cmd[2]])
             elif kind == 'enable':
-                await ports[cmd[2]].enable()
+                # enable() marks the port enabled and requests the evaluations before its first suspension point
                 trace.append(['Enable', cmd[2]])
+                await ports[cmd[2]].enable()
             elif kind == 'disable':
                 pp = ports[cmd[2]]
                 busy = bool(pp.get_expression()) and (pp.has_pending_eval() or pp.is_writing() or pp._write_value_queue.qsize() > 0
